@@ -181,3 +181,50 @@ Proof.
     ds s; cbv [coord_retry new_timer gen_end seq upd fst snd lookup_delay next_timer timers set_gens set_timers set_next_timer set_rejoin_d app];
     (split; [reflexivity|left; reflexivity]).
 Qed.
+
+(* ---------- any armed join_and_sync call (rejoin back-off OR coordinator-lookup retry) starts the join when fired ---------- *)
+Lemma any_timer_starts_join : forall s id k,
+  In (id, k) (timers s) -> (is_group s && stop_requested s) = false -> rejoin_needed s = true -> rejoin_d s = None ->
+  snd (step s (EFire id)) = [OLookup (next_rid s)] /\ gens (fst (step s (EFire id))) <> [] /\ rejoin_d (fst (step s (EFire id))) <> None.
+Proof.
+  intros s id k Hin G Rn Rd. pose proof (existsb_in_timer _ _ _ Hin) as Ex.
+  cbn [step]. unfold on_fire. rewrite Ex. unfold remove_timer, join_and_sync, add_gen.
+  ds s. cbn in G, Rn, Rd. subst.
+  destruct dc0 as [|i|]; prj; [| assert (E : exists b, (i =? id) = b) by eauto; destruct E as [[|] E]; rewrite E |]; prj;
+    rewrite ?G; prj; repeat split; discriminate.
+Qed.
+
+(* ---------- the failure of each request class does reach the funnel (step level) ---------- *)
+Lemma join_fail_step : forall s rid k g rest, take_first (awaits (GJoin rid)) (gens s) = Some (g, rest) ->
+  step s (EJoin rid (JFail k)) = (fst (gen_end (fst (rejoin_after_error k (set_gens rest s)))), snd (rejoin_after_error k (set_gens rest s))).
+Proof.
+  intros s rid k g rest T. cbn [step]. unfold on_join, with_gen. rewrite T. unfold seq.
+  destruct (rejoin_after_error k (set_gens rest s)) as [s1 o1]. cbn. rewrite app_nil_r. reflexivity.
+Qed.
+Lemma sync_fail_step : forall s rid k g rest, take_first (awaits (GSync rid)) (gens s) = Some (g, rest) ->
+  step s (ESync rid (SFail k)) = (fst (gen_end (fst (rejoin_after_error k (set_gens rest s)))), snd (rejoin_after_error k (set_gens rest s))).
+Proof.
+  intros s rid k g rest T. cbn [step]. unfold on_sync, with_gen. rewrite T. unfold seq.
+  destruct (rejoin_after_error k (set_gens rest s)) as [s1 o1]. cbn. rewrite app_nil_r. reflexivity.
+Qed.
+Lemma meta_fail_step : forall s rid k g rest, take_first (awaits (GMeta rid)) (gens s) = Some (g, rest) -> is_kafka k = true ->
+  step s (EMeta rid (RFail k)) = rejoin_after_error k (set_rejoin_d None (set_gens rest s)).
+Proof.
+  intros s rid k g rest T K. cbn [step]. unfold on_meta, with_gen. rewrite T. unfold gen_fail, seq, gen_end, upd. rewrite K.
+  destruct (rejoin_after_error k _) as [s1 o1]. reflexivity.
+Qed.
+Lemma parts_fail_step : forall s rid k g rest, take_first (awaits (GParts rid)) (gens s) = Some (g, rest) -> is_kafka k = true ->
+  step s (EParts rid (PFail k)) = rejoin_after_error k (set_rejoin_d None (set_gens rest s)).
+Proof.
+  intros s rid k g rest T K. cbn [step]. unfold on_parts, with_gen. rewrite T. unfold gen_fail, seq, gen_end, upd. rewrite K.
+  destruct (rejoin_after_error k _) as [s1 o1]. reflexivity.
+Qed.
+Lemma hb_fail_step : forall s rid k, hb_req s = Some rid -> hb_running s = true ->
+  step s (EHbReply rid (RFail k)) =
+  (fst (rejoin_after_error k (set_hb_running false (set_hb_req None s))),
+   OCancelTimer THeartbeat 0 :: snd (rejoin_after_error k (set_hb_running false (set_hb_req None s)))).
+Proof.
+  intros s rid k Hq Hr. cbn [step]. unfold on_hb_reply. rewrite Hq, Z.eqb_refl.
+  replace (hb_running (set_hb_req None s)) with true by (ds s; cbn in *; auto).
+  unfold seq, hb_stop. destruct (rejoin_after_error k _) as [s1 o1]. reflexivity.
+Qed.
